@@ -266,15 +266,18 @@ func (s *Server) Stop() error {
 		s.listener.Close()
 	}
 
-	if s.metadata != nil {
-		if err := s.metadata.Reset(); err != nil {
+	// Shut down Raft before dropping the metadata: as long as Raft runs it may
+	// snapshot the FSM, and a snapshot of the emptied metadata store would be
+	// restored on the next start in place of the real state.
+	if raft := s.getRaft(); raft != nil {
+		if err := raft.shutdown(); err != nil {
 			s.mu.Unlock()
 			return err
 		}
 	}
 
-	if raft := s.getRaft(); raft != nil {
-		if err := raft.shutdown(); err != nil {
+	if s.metadata != nil {
+		if err := s.metadata.Reset(); err != nil {
 			s.mu.Unlock()
 			return err
 		}
